@@ -22,10 +22,14 @@ STATEMENTS = ['var v = a', 'a = b', 'do x; while (c)', 'continue', 'continue L',
               'return a', 'throw a', 'debugger', 'a++', 'f()', 'x = function(){}', 'y = {}', 'z = [1]', 'w = /re/',
               'n = 1', 's = "s"', 't = true', 'u = null', 'v = this', 'return 1.5', 'o.in', '(p)']
 SEPARATORS = ['', ' ', '\n', '\r', '\r\n', u'\u2028', u'\u2029', '/*c*/', '/*a\nb*/', '//c\n', '\n/*c*/', '/*c*/\n',
-              ' \n ', '/**/\n/**/ ', '/*a\rb*/', '/* c\r */ ', u'/*\u2029*/', '//c\r']
+              ' \n ', '/**/\n/**/ ', '/*a\rb*/', '/* c\r */ ', u'/*\u2029*/', '//c\r',
+              # more than one line terminator
+              '\n\n', '\n// c\n', '\n/* c */\n', u'\r\n\u2028']
 FOLLOW = ['b', '1', '"s"', '(c)', '[0]', '{}', '+b', '-b', '++b', '--b', '/re/.x', '/re/g', '.x', 'var v2', 'if(c);',
           'function g(){}', '', ';', 'in c', 'instanceof c', ', c', '? c : d', '= c', 'else;', 'while(c);', '}',
-          'new C', 'typeof c', '!c', 'this.x', 'null', 'case 1:', 'L: x', 'do;while(c)', '/= 2', '/ 2 / 1']
+          'new C', 'typeof c', '!c', 'this.x', 'null', 'case 1:', 'L: x', 'do;while(c)', '/= 2', '/ 2 / 1',
+          # a token that holds a line terminator and is not preceded by one
+          '"x\\\ny"', "'p\\\r\nq'.z"]
 CONTEXTS = ['%s', 'function F(){ L: for(;;) { %s } }', '{ %s }', 'if (q) { %s } else { t }']
 
 
@@ -110,7 +114,7 @@ def plan(tier, seed):
     ns = 16 if quick else 32
     for k in range(ns):
         shards.append({'name': 'prod-%d' % k, 'kind': 'prod', 'k': k, 'of': ns,
-                       'stride': 4 if quick else 1})
+                       'stride': 2 if quick else 1})
     return shards
 
 
